@@ -146,6 +146,7 @@ func (c20) Class(e Ev) string {
 func (c20) Table(rows []Ev, tier string, seed int64, rep *TableReport) {
 	nst, ndv := 0, 0
 	for _, r := range rows {
+		tick([]Ev{r})
 		switch GS(r["t"]) {
 		case "st":
 			nst++
